@@ -367,8 +367,11 @@ class EIG(BaseRoutine):
                 param.owner.set(src=param.name, idx=idxes[idx], attr='v', value=val[idx])
                 logger.debug(f"Set {param.name} = {param.v[pos]}")
 
-            self.system.TDS.init()
-            self.system.TDS.itm_step()
+            # initialize, or re-evaluate the equations and Jacobians at the current point
+            if not self._pre_check():
+                logger.error("Parameter sweep stopped at round %d.", count)
+                return results
+
             self.calc_As()
             mu, N = self.calc_eig(self.As)
 
